@@ -159,6 +159,113 @@ static void cancel_family(int ii, uint8_t *p, int len, const char *place)
 	}
 }
 
+/* byte-granular observation: inaccessible pages only see an over-read that crosses a page. Here the byte directly in front of the
+ * region and the byte directly behind it are watched by hardware data breakpoints (debug registers, programmed through
+ * perf_event_open and enabled only around the call): a routine that loads a wider word than the region and masks the surplus away
+ * gives right answers and never faults, yet it reads what it was not given. Regions of 0..48 bytes at 16 start offsets in the
+ * interior of a mapping (so that nothing faults), all-zero and with each single byte set. */
+#include <linux/perf_event.h>
+#include <linux/hw_breakpoint.h>
+#include <sys/syscall.h>
+#include <sys/ioctl.h>
+static int wp_open(void *addr)
+{
+	struct perf_event_attr a;
+	memset(&a, 0, sizeof a);
+	a.type = PERF_TYPE_BREAKPOINT;
+	a.size = sizeof a;
+	a.bp_type = HW_BREAKPOINT_RW;
+	a.bp_addr = (uintptr_t)addr;
+	a.bp_len = HW_BREAKPOINT_LEN_1;
+	a.disabled = 1;
+	a.exclude_kernel = 1;
+	a.exclude_hv = 1;
+	return (int)syscall(SYS_perf_event_open, &a, 0, -1, -1, 0);
+}
+static long wp_count(int fd)
+{
+	long long c = 0;
+	if (read(fd, &c, sizeof c) != sizeof c)
+		return -1;
+	return (long)c;
+}
+static void watched_regions(void)
+{
+	char key[200];
+	static uint8_t *area;
+	if (!area)
+		area = g_persist(8192, G_END);
+	/* self-test: a deliberate 8-byte load across the end of a 3-byte region must be seen */
+	{
+		memset(area, 0, 8192);
+		int fd = wp_open(area + 2048 + 3);
+		if (fd < 0) {
+			v_note("hardware watchpoints unavailable (perf_event_open refused): the byte-granular over-read check was not run");
+			v_not_exhaustive("hardware watchpoints unavailable");
+			return;
+		}
+		ioctl(fd, PERF_EVENT_IOC_RESET, 0);
+		ioctl(fd, PERF_EVENT_IOC_ENABLE, 0);
+		volatile uint64_t sink = *(volatile uint64_t *)(area + 2048);
+		(void)sink;
+		ioctl(fd, PERF_EVENT_IOC_DISABLE, 0);
+		long c = wp_count(fd);
+		close(fd);
+		if (c < 1) {
+			v_note("hardware watchpoints do not count on this machine: the byte-granular over-read check was not run");
+			v_not_exhaustive("hardware watchpoints do not count");
+			return;
+		}
+	}
+	uint64_t unit = 300000;
+	for (int ii = 0; ii < NIMPL; ii++)
+		for (int off = 0; off < 16; off++) {
+			if (!v_mine(unit++))
+				continue;
+			if (v_deadline_hit())
+				return;
+			if (impl[ii].level >= 0)
+				cpu_set_level(impl[ii].level);
+			zd_fn f = impl[ii].f;
+			for (int len = 0; len <= 48; len++) {
+				uint8_t *p = area + 2048 + off;
+				memset(area, 0xEE, 8192);
+				memset(p, 0, len);
+				int fb = wp_open(p - 1), fa = wp_open(p + len);
+				if (fb < 0 || fa < 0)
+					v_broken("perf_event_open failed after the self-test succeeded");
+				ioctl(fb, PERF_EVENT_IOC_RESET, 0);
+				ioctl(fa, PERF_EVENT_IOC_RESET, 0);
+				for (int pos = -1; pos < len; pos++) {
+					if (pos >= 0)
+						p[pos] = 0x80;
+					ioctl(fb, PERF_EVENT_IOC_ENABLE, 0);
+					ioctl(fa, PERF_EVENT_IOC_ENABLE, 0);
+					int r = f(p, len);
+					ioctl(fa, PERF_EVENT_IOC_DISABLE, 0);
+					ioctl(fb, PERF_EVENT_IOC_DISABLE, 0);
+					if (pos >= 0)
+						p[pos] = 0;
+					v_eval();
+					if ((r != 0) != (pos >= 0)) {
+						snprintf(key, sizeof key, "%s wrong (watched) len=%d offset=%d", impl[ii].name, len, off);
+						v_violation(key, "returned %d with %s", r, pos < 0 ? "an all-zero region" : "one byte set");
+					}
+				}
+				long cb = wp_count(fb), ca = wp_count(fa);
+				close(fb);
+				close(fa);
+				if (cb || ca) {
+					snprintf(key, sizeof key, "%s reads outside the region (watchpoint) len=%d", impl[ii].name, len);
+					v_violation(key, "region of %d bytes at page offset %d: %ld access(es) to the byte directly in front of it, %ld to the byte directly behind it (answers were right, nothing faulted)", len,
+						    2048 + off, cb, ca);
+				}
+				v_count("watched_region_cases", 1);
+			}
+			v_nontrivial(v_mix(0x3a7c + ii, off));
+		}
+}
+
 /* long regions (64 KiB .. 4 MiB): kernels may switch strategy above a size threshold. For each length x start alignment: all-zero, and a
  * single non-zero byte at every offset of the first and the last 640 bytes, around every power of two and at every 4099th offset */
 static void long_regions(void)
@@ -324,11 +431,13 @@ int main(int argc, char **argv)
 		}
 	}
 	long_regions();
+	watched_regions();
 out:
 	if (v_shard == 0) {
 		v_sample("len=17 placement E: region all zero -> 0; byte 0x80 at offset 16 -> non-zero; canary neighbours non-zero");
 		v_note("dense families: zeros + non-zero suffix, non-zero prefix + zeros, sliding 64- and 128-byte non-zero windows, every start, fill ff/01/80 (all byte lanes of a vector block non-zero at once)");
 		v_note("cancelling pairs: words of 1/2/4/8 bytes with one non-zero byte, repeated or negated at distance W, 2W, 16, 32, 64, 128, at every offset (placements E, S+0, S+1, S+8)");
+		v_note("watched regions: hardware data breakpoints on the byte in front of and the byte behind regions of 0..48 bytes at 16 interior offsets (over-reads that never cross a page)");
 		v_note("long regions: 64 KiB+77 .. 4 MiB+1 bytes x 7 start alignments: all-zero and a single non-zero byte at every offset of the first/last 640 bytes, around every power of two and every 4099th offset");
 		v_note("placements: E (ends at PROT_NONE page), S+off (starts off bytes after a PROT_NONE page), off=0..63 for len<=256 else {0,1,7,8,15,16,31,32,63}");
 	}
